@@ -310,10 +310,49 @@ theorem add_attrs_sub [BEq β] [LawfulBEq β] (a b : DSet α β) :
   have : kv' = kv := Prod.ext h1 h2
   exact this ▸ hb
 
-/-! ### copies do not alias -/
+/-! ### copies do not alias: objects are references into a heap (Model/DataSetOps.lean, `Heap`); `copy` allocates -/
 
-theorem copy_no_alias (orig : Point β) (assign : List (String × β)) :
-    (copyThenSet orig assign).1 = orig := rfl
+theorem Heap.get_setattr_ne (h : Heap β) (r r' : Nat) (k : String) (v : β) (hne : r' ≠ r) :
+    (h.setattr r k v).get r' = h.get r' := by
+  unfold Heap.setattr Heap.get
+  simp only [List.getD_eq_getElem?_getD, List.getElem?_modify]
+  split
+  · rename_i heq; exact absurd heq.symm hne
+  · simp
+
+theorem Heap.length_setattr (h : Heap β) (r : Nat) (k : String) (v : β) : (h.setattr r k v).length = h.length := by
+  simp [Heap.setattr]
+
+theorem Heap.get_setMany_ne (h : Heap β) (r r' : Nat) (assign : List (String × β)) (hne : r' ≠ r) :
+    (h.setMany r assign).get r' = h.get r' := by
+  unfold Heap.setMany
+  induction assign generalizing h with
+  | nil => rfl
+  | cons kv rest ih => simp only [List.foldl_cons]; rw [ih, Heap.get_setattr_ne _ _ _ _ _ hne]
+
+/-- **assigning attributes on a copied point never changes the original** — nor any other object of the heap -/
+theorem copy_no_alias_heap (h : Heap β) (r : Nat) (hr : r < h.length) (assign : List (String × β)) :
+    let (h1, c) := h.copy r
+    ∀ r', r' < h.length → ((h1.setMany c assign).get r' = h.get r') := by
+  intro r' hr'
+  rw [Heap.get_setMany_ne _ _ _ _ (by omega)]
+  unfold Heap.get
+  simp [List.getD_eq_getElem?_getD, List.getElem?_append_left hr']
+
+/-- … and the copy starts out with the same items -/
+theorem copy_same_items (h : Heap β) (r : Nat) :
+    (h.copy r).1.get (h.copy r).2 = h.get r := by
+  simp [Heap.copy, Heap.get, List.getD_eq_getElem?_getD]
+
+/-- an ALIAS instead of a copy (what a seeded change "return self" does) is different: the assignment shows in
+    the original -/
+theorem alias_refuted :
+    let h : Heap Nat := [[("xB", 1), ("val", 5)]]
+    let (h1, c) := h.alias 0
+    (h1.setMany c [("val", 9)]).get 0 = [("xB", 1), ("val", 9)] ∧
+    (let (h2, c2) := h.copy 0; (h2.setMany c2 [("val", 9)]).get 0 = [("xB", 1), ("val", 5)] ∧
+                               (h2.setMany c2 [("val", 9)]).get c2 = [("xB", 1), ("val", 9)]) := by
+  decide
 
 theorem set_get (p : Point β) (k : String) (v : β) : (p.set k v).get? k = some v := by
   unfold Point.set Point.get?
